@@ -167,30 +167,73 @@ def countIn (l : List Addr) (set : List Addr) : Nat := (l.filter (fun a => set.c
 
 def addOnce (l : List Addr) (a : Addr) : List Addr := if l.contains a then l else l ++ [a]
 
+/-! ## Quorum ledgers: the counting cores -/
+
+/-- Core of `CheckConsensusSigns`: the approver joins the signer set of the ledger entry; the quorum is decided on the
+members of the current consensus set (one count per pool entry) found in the signer set. -/
+def ccsCore (ledger cons : List Addr) (a : Addr) : List Addr × Bool :=
+  (addOnce ledger a, nodemgr_CheckConsensusSigns0 (countIn cons (addOnce ledger a) : Nat) (cons.length : Nat))
+
+/-- Core of `CheckVotes` for an open ledger entry and a voter that is a consensus member: new voter list, released. -/
+def voteCore (voters cons : List Addr) (a : Addr) : List Addr × Bool :=
+  let fresh := !voters.contains a
+  (if fresh then voters ++ [a] else voters,
+   vote_CheckVotes0 (countIn cons voters + (if fresh then 1 else 0) : Nat) (cons.length : Nat))
+
+def sigHas (l : List (Addr × Bytes)) (a : Addr) : Bool := l.any (fun p => p.1 == a)
+
+/-- Core of `CheckSigns` for a signer that is a consensus member: new entry (status, signatures) and `shouldEmit`. -/
+def sigCore (info : Bool × List (Addr × Bytes)) (cons : List Addr) (a : Addr) (sig : Bytes) :
+    (Bool × List (Addr × Bytes)) × Bool :=
+  let fresh := !sigHas info.2 a
+  let entries := if fresh then info.2 ++ [(a, sig)] else info.2
+  let num := countIn cons (info.2.map (·.1)) + (if fresh then 1 else 0)
+  let reached := sigmgr_CheckSigns1 (num : Nat) (cons.length : Nat)
+  ((info.1 || reached, entries), reached && !info.1)
+
 section
 variable (H : Bytes → Bytes)
 
 def ledgerKey (method : String) (input : Bytes) : Bytes := H (strBytes method ++ input)
 
-/-- `node_manager.CheckConsensusSigns`: returns the new state, whether the quorum is reached, and the notification. -/
+def ledgerOf (s : State) (key : Bytes) : List Addr := (alGet s.signs key).getD []
+
+/-- `node_manager.CheckConsensusSigns`: new state, whether the quorum is reached, the notification. On quorum the
+ledger entry is deleted, otherwise stored. -/
 def checkConsensusSigns (s : State) (method : String) (input : Bytes) (a : Addr) : M (State × Bool × String) :=
-  let key := ledgerKey H method input
-  let signers := addOnce ((alGet s.signs key).getD []) a
-  let ev := "CheckConsensusSigns:" ++ toString signers.length
   match curPool s with
   | none => .error .err
   | some (_, pool) =>
     match consAddrs s pool with
     | none => .error .err
     | some cons =>
-      if nodemgr_CheckConsensusSigns0 (countIn cons signers : Nat) (cons.length : Nat) then
-        .ok ({ s with signs := alErase s.signs key }, true, ev)
-      else
-        .ok ({ s with signs := alPut s.signs key signers }, false, ev)
+      let key := ledgerKey H method input
+      let r := ccsCore (ledgerOf s key) cons a
+      .ok ({ s with signs := if r.2 then alErase s.signs key else alPut s.signs key r.1 }, r.2,
+           "CheckConsensusSigns:" ++ toString r.1.length)
 
 /-- `ClearConsensusSigns`. -/
 def clearSigns (s : State) (method : String) (input : Bytes) : State :=
   { s with signs := alErase s.signs (ledgerKey H method input) }
+end
+
+/-! ## Plans: what a transaction is going to do
+
+Every handler either finishes by itself (`done`) or asks for validator approval (`approve`): it passes
+`(method, input, address)` to `CheckConsensusSigns` and names the effect that is applied when the quorum is reached. -/
+
+structure Approval where
+  method : String
+  input : Bytes
+  addr : Addr
+  /-- return value while the quorum is not reached -/
+  retNo : String
+  /-- the action, applied to the state left by `CheckConsensusSigns`, and its notification -/
+  onFire : State → M (State × String)
+
+inductive Plan
+  | done (o : Out)
+  | approve (a : Approval)
 
 /-! ## Node manager -/
 
@@ -202,9 +245,9 @@ def executeCommitDpos (s : State) : M State :=
   | none => .error .err
   | some (gv, pool) =>
     if s.height = gv.height then .error .err else
-    let pool' := (pool.filter (fun it => it.status.active)).map (fun it => { it with status := Status.cons })
-    let oldView := wrapSub32 gv.view 1
-    .ok { s with pools := alErase (alPut s.pools (gv.view + 1) pool') oldView,
+    .ok { s with pools := alErase (alPut s.pools (gv.view + 1)
+                    ((pool.filter (fun it => it.status.active)).map (fun it => { it with status := Status.cons })))
+                    (wrapSub32 gv.view 1),
                  gv := some { view := gv.view + 1, height := s.height } }
 
 def dupIdx : List (Nat × String × Addr) → Bool
@@ -216,7 +259,7 @@ def dupPk : List (Nat × String × Addr) → Bool
   | p :: t => t.any (fun q => q.2.1 = p.2.1) || dupPk t
 
 /-- `InitConfig` (delays and VRF strings of the configuration are fixed valid values in the harness). -/
-def initConfig (s : State) (mbcv : Nat) (peers : List (Nat × String × Addr)) : M Out :=
+def initConfig (s : State) (mbcv : Nat) (peers : List (Nat × String × Addr)) : M Plan :=
   if s.gv.isSome then .error .err else
   if dupIdx peers || dupPk peers then .error .err else
   if peers.any (fun p => p.1 = 0 || (addrOfPk s p.2.1).isNone) then .error .err else
@@ -225,16 +268,16 @@ def initConfig (s : State) (mbcv : Nat) (peers : List (Nat × String × Addr)) :
     | some b => alPut acc b p.1
     | none => acc) s.pidx
   let maxId := peers.foldl (fun m p => if p.1 > m then p.1 else m) 0
-  .ok { st := { s with pools := alPut (alPut s.pools 0 items) 1 items, pidx := pidx, candIndex := some (maxId + 1),
-                       gv := some { view := 1, height := s.height },
-                       cfg := some { blockMsgDelay := 10000, hashMsgDelay := 10000, peerHandshakeTimeout := 10, maxBlockChangeView := mbcv } },
-        ret := "1", events := [] }
+  let cfg : Config := { blockMsgDelay := 10000, hashMsgDelay := 10000, peerHandshakeTimeout := 10, maxBlockChangeView := mbcv }
+  .ok (.done { st := { s with pools := alPut (alPut s.pools 0 items) 1 items, pidx := pidx, candIndex := some (maxId + 1),
+                              gv := some { view := 1, height := s.height }, cfg := some cfg },
+               ret := "1", events := [] })
 
 /-- `RegisterCandidate`. `State.keys` holds the canonical serializations of the valid keys, so a string that is valid
 here is canonical (the Go code rejects the other encodings of a key explicitly); pool membership is decided on the
 public keys (all pool keys are canonical: they entered through this method or, by assumption, through the genesis
 configuration). -/
-def registerCandidate (s : State) (signers : List Addr) (pk : String) (addr : Addr) : M Out :=
+def registerCandidate (s : State) (signers : List Addr) (pk : String) (addr : Addr) : M Plan :=
   if !witness signers addr then .error .err else
   if (addrOfPk s pk).isNone then .error .err else
   match decodePk pk with
@@ -246,52 +289,30 @@ def registerCandidate (s : State) (signers : List Addr) (pk : String) (addr : Ad
     | none => .error .err
     | some (_, pool) =>
       if pool.any (fun it => (addrOfPk s it.pk).isNone || decodePk it.pk == some kb) then .error .err else
-      .ok { st := { s with apply := alPut s.apply kb (pk, addr) }, ret := "1", events := ["registerCandidate"] }
+      .ok (.done { st := { s with apply := alPut s.apply kb (pk, addr) }, ret := "1", events := ["registerCandidate"] })
 
-/-- `UnRegisterCandidate`. -/
-def unRegisterCandidate (s : State) (signers : List Addr) (pk : String) (addr : Addr) : M Out :=
-  if !witness signers addr then .error .err else
-  match decodePk pk with
-  | none => .error .err
-  | some kb =>
-    match alGet s.apply kb with
-    | none => .error .err
-    | some (apk, aaddr) =>
-      if aaddr ≠ addr then .error .err else
-      let s1 := { s with apply := alErase s.apply kb }
-      .ok { st := clearSigns H s1 "approveCandidate" (strBytes apk), ret := "1", events := ["unRegisterCandidate"] }
+/-- Index of an approved candidate: the one recorded for its key, otherwise the next free one (which is recorded). -/
+def allocIndex (s1 : State) (akb : Bytes) : Option (Nat × State) :=
+  match alGet s1.pidx akb with
+  | some i => some (i, s1)
+  | none => match s1.candIndex with
+    | none => none
+    | some ci => some (ci, { s1 with candIndex := some (ci + 1), pidx := alPut s1.pidx akb ci })
 
-/-- `ApproveCandidate`. -/
-def approveCandidate (s : State) (signers : List Addr) (pk : String) (addr : Addr) : M Out :=
-  if !witness signers addr then .error .err else
-  match decodePk pk with
+/-- The action of `ApproveCandidate` once approved (`key` = the public key string of the approver's parameters, under
+which the Go code stores the map entry; `apk`, `aaddr` = the pending request). -/
+def candidateEffect (key apk : String) (aaddr : Addr) (s1 : State) : M (State × String) :=
+  match decodePk apk with
   | none => .error .err
-  | some kb =>
-    match alGet s.apply kb with
+  | some akb =>
+    match allocIndex s1 akb with
     | none => .error .err
-    | some (apk, aaddr) =>
-      match checkConsensusSigns H s "approveCandidate" (strBytes apk) addr with
-      | .error e => .error e
-      | .ok (s1, false, ev) => .ok { st := s1, ret := "1", events := [ev] }
-      | .ok (s1, true, ev) =>
-        match decodePk apk with
-        | none => .error .err
-        | some akb =>
-          let idxRes : Option (Nat × State) :=
-            match alGet s1.pidx akb with
-            | some i => some (i, s1)
-            | none => match s1.candIndex with
-              | none => none
-              | some ci => some (ci, { s1 with candIndex := some (ci + 1), pidx := alPut s1.pidx akb ci })
-          match idxRes with
-          | none => .error .err
-          | some (idx, s2) =>
-            match curPool s2 with
-            | none => .error .err
-            | some (gv, pool) =>
-              let item : PeerItem := { index := idx, pk := apk, addr := aaddr, status := .cand }
-              .ok { st := { s2 with pools := alPut s2.pools gv.view (poolInsert pool pk item), apply := alErase s2.apply akb },
-                    ret := "1", events := [ev, "approveCandidate"] }
+    | some (idx, s2) =>
+      match curPool s2 with
+      | none => .error .err
+      | some (gv, pool) =>
+        .ok ({ s2 with pools := alPut s2.pools gv.view (poolInsert pool key { index := idx, pk := apk, addr := aaddr, status := .cand }),
+                       apply := alErase s2.apply akb }, "approveCandidate")
 
 /-- second loop of `BlackNode`: blacklist records, status change, whether a consensus member was hit. -/
 def blackLoop : List String → List PeerItem → List (Bytes × (String × Addr)) → Bool →
@@ -306,55 +327,16 @@ def blackLoop : List String → List PeerItem → List (Bytes × (String × Addr
       | some it =>
         blackLoop rest (poolSetStatus pool pk .black) (alPut bl kb (it.pk, it.addr)) (commit || decide (it.status = .cons))
 
-/-- `BlackNode`. -/
-def blackNode (s : State) (signers : List Addr) (addr : Addr) (pks : List String) : M Out :=
-  if !witness signers addr then .error .err else
-  match curPool s with
+/-- The action of `BlackNode` once approved (`gv`, `pool` were read before the approval was counted). -/
+def blackEffect (gv : GovView) (pool : List PeerItem) (pks : List String) (s1 : State) : M (State × String) :=
+  match blackLoop pks pool s1.black false with
   | none => .error .err
-  | some (gv, pool) =>
-    if activeCount pool + 1 ≤ 4 + pks.length then .error .err else
-    if pks.any (fun pk => match poolFind pool pk with
-        | none => true
-        | some it => decide (it.status = .black)) then .error .err else
-    match checkConsensusSigns H s "blackNode" (pks.flatMap strBytes) addr with
-    | .error e => .error e
-    | .ok (s1, false, ev) => .ok { st := s1, ret := "1", events := [ev] }
-    | .ok (s1, true, ev) =>
-      match blackLoop pks pool s1.black false with
-      | none => .error .err
-      | some (pool', bl, commit) =>
-        let s2 := { s1 with pools := alPut s1.pools gv.view pool', black := bl }
-        if commit then
-          match executeCommitDpos s2 with
-          | .error e => .error e
-          | .ok s3 => .ok { st := s3, ret := "1", events := [ev, "blackNode"] }
-        else .ok { st := s2, ret := "1", events := [ev, "blackNode"] }
-
-/-- `WhiteNode`. -/
-def whiteNode (s : State) (signers : List Addr) (pk : String) (addr : Addr) : M Out :=
-  if !witness signers addr then .error .err else
-  match decodePk pk with
-  | none => .error .err
-  | some kb =>
-    if !alHas s.black kb then .error .err else
-    match checkConsensusSigns H s "whiteNode" (strBytes pk) addr with
-    | .error e => .error e
-    | .ok (s1, false, ev) => .ok { st := s1, ret := "1", events := [ev] }
-    | .ok (s1, true, ev) => .ok { st := { s1 with black := alErase s1.black kb }, ret := "1", events := [ev, "whiteNode"] }
-
-/-- `QuitNode`. -/
-def quitNode (s : State) (signers : List Addr) (pk : String) (addr : Addr) : M Out :=
-  if !witness signers addr then .error .err else
-  match curPool s with
-  | none => .error .err
-  | some (gv, pool) =>
-    match poolFind pool pk with
-    | none => .error .err
-    | some it =>
-      if !it.status.active then .error .err else
-      if addr ≠ it.addr then .error .err else
-      if activeCount pool ≤ 4 then .error .err else
-      .ok { st := { s with pools := alPut s.pools gv.view (poolSetStatus pool pk .quit) }, ret := "1", events := ["quitNode"] }
+  | some (pool', bl, commit) =>
+    if commit then
+      match executeCommitDpos { s1 with pools := alPut s1.pools gv.view pool', black := bl } with
+      | .error e => .error e
+      | .ok s3 => .ok (s3, "blackNode")
+    else .ok ({ s1 with pools := alPut s1.pools gv.view pool', black := bl }, "blackNode")
 
 /-- `GetCurConOperator` succeeds (the address itself is an oracle value of the op line). -/
 def operatorOk (s : State) : Bool :=
@@ -364,208 +346,6 @@ def operatorOk (s : State) : Bool :=
     match consAddrs s pool with
     | none => false
     | some cons => decide (1 ≤ cons.length ∧ cons.length ≤ 16)
-
-/-- `CommitDpos`. -/
-def commitDpos (s : State) (signers : List Addr) (operator : Addr) : M Out :=
-  match s.cfg, s.gv with
-  | some cfg, some gv =>
-    if !operatorOk s then .error .err else
-    if !witness signers operator && !(decide (wrapSub32 s.height gv.height ≥ cfg.maxBlockChangeView)) then .error .err else
-    match executeCommitDpos s with
-    | .error e => .error e
-    | .ok s1 => .ok { st := s1, ret := "1", events := ["commitDpos"] }
-  | _, _ => .error .err
-
-/-- `UpdateConfig`. -/
-def updateConfig (s : State) (signers : List Addr) (operator : Addr) (c : Config) : M Out :=
-  if !operatorOk s then .error .err else
-  if !witness signers operator then .error .err else
-  if c.blockMsgDelay < 5000 || c.hashMsgDelay < 5000 || c.peerHandshakeTimeout < 10 || c.maxBlockChangeView < 10000 then .error .err else
-  .ok { st := { s with cfg := some c }, ret := "1", events := ["updateConfig"] }
-
-/-! ## Side chain manager -/
-
-def registerSideChain (s : State) (signers : List Addr) (r : SideChain) : M Out :=
-  if r.btw = 0 then .error .err else
-  if !witness signers r.addr then .error .err else
-  if alHas s.scApply r.chainId then .error .err else
-  if alHas s.sc r.chainId then .error .err else
-  .ok { st := { s with scApply := alPut s.scApply r.chainId r }, ret := "1", events := ["RegisterSideChain"] }
-
-def approveRegisterSideChain (s : State) (signers : List Addr) (id : Nat) (addr : Addr) : M Out :=
-  if !witness signers addr then .error .err else
-  match alGet s.scApply id with
-  | none => .error .err
-  | some req =>
-    match checkConsensusSigns H s "approveRegisterSideChain" (u64le id) addr with
-    | .error e => .error e
-    | .ok (s1, false, ev) => .ok { st := s1, ret := "1", events := [ev] }
-    | .ok (s1, true, ev) =>
-      .ok { st := { s1 with sc := alPut s1.sc req.chainId req, scApply := alErase s1.scApply id },
-            ret := "1", events := [ev, "ApproveRegisterSideChain"] }
-
-def updateSideChain (s : State) (signers : List Addr) (r : SideChain) : M Out :=
-  if r.btw = 0 then .error .err else
-  if !witness signers r.addr then .error .err else
-  match alGet s.sc r.chainId with
-  | none => .error .err
-  | some cur =>
-    if cur.addr ≠ r.addr then .error .err else
-    let s1 := { s with scUpd := alPut s.scUpd r.chainId r }
-    .ok { st := clearSigns H s1 "approveUpdateSideChain" (u64le r.chainId), ret := "1", events := ["UpdateSideChain"] }
-
-def approveUpdateSideChain (s : State) (signers : List Addr) (id : Nat) (addr : Addr) : M Out :=
-  if !witness signers addr then .error .err else
-  match alGet s.scUpd id with
-  | none => .error .err
-  | some req =>
-    match checkConsensusSigns H s "approveUpdateSideChain" (u64le id) addr with
-    | .error e => .error e
-    | .ok (s1, false, ev) => .ok { st := s1, ret := "1", events := [ev] }
-    | .ok (s1, true, ev) =>
-      .ok { st := { s1 with sc := alPut s1.sc req.chainId req, scUpd := alErase s1.scUpd id },
-            ret := "1", events := [ev, "ApproveUpdateSideChain"] }
-
-def quitSideChain (s : State) (signers : List Addr) (id : Nat) (addr : Addr) : M Out :=
-  if !witness signers addr then .error .err else
-  match alGet s.sc id with
-  | none => .error .err
-  | some cur =>
-    if cur.addr ≠ addr then .error .err else
-    .ok { st := { s with scQuit := if s.scQuit.contains id then s.scQuit else s.scQuit ++ [id] }, ret := "1", events := ["QuitSideChain"] }
-
-def approveQuitSideChain (s : State) (signers : List Addr) (id : Nat) (addr : Addr) : M Out :=
-  if !witness signers addr then .error .err else
-  if !s.scQuit.contains id then .error .err else
-  match checkConsensusSigns H s "quitSideChain" (u64le id) addr with
-  | .error e => .error e
-  | .ok (s1, false, ev) => .ok { st := s1, ret := "1", events := [ev] }
-  | .ok (s1, true, ev) =>
-    .ok { st := { s1 with scQuit := s1.scQuit.filter (fun x => decide (x ≠ id)), scUpd := alErase s1.scUpd id, sc := alErase s1.sc id },
-          ret := "1", events := [ev, "ApproveQuitSideChain"] }
-
-/-! ## Relayer manager -/
-
-def registerRelayer (s : State) (signers : List Addr) (addr : Addr) (l : List Addr) : M Out :=
-  if !witness signers addr then .error .err else
-  let id := s.rlApplyId.getD 0
-  .ok { st := { s with rlApplyId := some (id + 1), rlApply := alPut s.rlApply id (l, addr) }, ret := "1", events := ["putRelayerApply"] }
-
-def approveRegisterRelayer (s : State) (signers : List Addr) (id : Nat) (addr : Addr) : M Out :=
-  if !witness signers addr then .error .err else
-  match alGet s.rlApply id with
-  | none => .error .err
-  | some (l, _) =>
-    match checkConsensusSigns H s "approveRegisterRelayer" (u64le id) addr with
-    | .error e => .error e
-    | .ok (s1, false, ev) => .ok { st := s1, ret := "1", events := [ev] }
-    | .ok (s1, true, ev) =>
-      .ok { st := { s1 with relayers := l.foldl addOnce s1.relayers, rlApply := alErase s1.rlApply id },
-            ret := "1", events := [ev, "ApproveRegisterRelayer"] }
-
-def removeRelayer (s : State) (signers : List Addr) (addr : Addr) (l : List Addr) : M Out :=
-  if !witness signers addr then .error .err else
-  let id := s.rlRemoveId.getD 0
-  .ok { st := { s with rlRemoveId := some (id + 1), rlRemove := alPut s.rlRemove id (l, addr) }, ret := "1", events := ["putRelayerRemove"] }
-
-def approveRemoveRelayer (s : State) (signers : List Addr) (id : Nat) (addr : Addr) : M Out :=
-  if !witness signers addr then .error .err else
-  match alGet s.rlRemove id with
-  | none => .error .err
-  | some (l, _) =>
-    match checkConsensusSigns H s "approveRemoveRelayer" (u64le id) addr with
-    | .error e => .error e
-    | .ok (s1, false, ev) => .ok { st := s1, ret := "1", events := [ev] }
-    | .ok (s1, true, ev) =>
-      .ok { st := { s1 with relayers := s1.relayers.filter (fun a => !l.contains a), rlRemove := alErase s1.rlRemove id },
-            ret := "1", events := [ev, "ApproveRemoveRelayer"] }
-
-/-! ## Neo3 state manager -/
-
-def registerStateValidator (s : State) (signers : List Addr) (addr : Addr) (l : List String) : M Out :=
-  if !witness signers addr then .error .err else
-  let id := s.svApplyId.getD 0
-  .ok { st := { s with svApplyId := some (id + 1), svApply := alPut s.svApply id (l, addr) }, ret := "1", events := ["putStateValidatorApply"] }
-
-def approveRegisterStateValidator (s : State) (signers : List Addr) (id : Nat) (addr : Addr) : M Out :=
-  if !witness signers addr then .error .err else
-  match checkConsensusSigns H s "approveRegisterStateValidator" (u64le id) addr with
-  | .error e => .error e
-  | .ok (s1, false, ev) => .ok { st := s1, ret := "0", events := [ev] }
-  | .ok (s1, true, ev) =>
-    match alGet s.svApply id with
-    | none => .error .panic     -- nil request record dereferenced
-    | some (l, _) =>
-      let old := s1.svs.getD []
-      .ok { st := { s1 with svs := some (old ++ l.filter (fun x => !old.contains x)), svApply := alErase s1.svApply id },
-            ret := "1", events := [ev, "ApproveRegisterStateValidator"] }
-
-def removeStateValidator (s : State) (signers : List Addr) (addr : Addr) (l : List String) : M Out :=
-  if !witness signers addr then .error .err else
-  let id := s.svRemoveId.getD 0
-  .ok { st := { s with svRemoveId := some (id + 1), svRemove := alPut s.svRemove id (l, addr) }, ret := "1", events := ["putStateValidatorRemove"] }
-
-def approveRemoveStateValidator (s : State) (signers : List Addr) (id : Nat) (addr : Addr) : M Out :=
-  if !witness signers addr then .error .err else
-  match checkConsensusSigns H s "approveRemoveStateValidator" (u64le id) addr with
-  | .error e => .error e
-  | .ok (s1, false, ev) => .ok { st := s1, ret := "0", events := [ev] }
-  | .ok (s1, true, ev) =>
-    match alGet s.svRemove id with
-    | none => .error .panic
-    | some (l, _) =>
-      let rest := l.foldl (fun acc x => acc.erase x) (s1.svs.getD [])
-      .ok { st := { s1 with svs := if rest.isEmpty then none else some rest, svRemove := alErase s1.svRemove id },
-            ret := "1", events := [ev, "ApproveRemoveStateValidator"] }
-end
-
-/-! ## Vote ledgers -/
-
-/-- `consensus_vote.CheckVotes`. -/
-def checkVotes (s : State) (id : Bytes) (addr : Addr) : M Out :=
-  let info := (alGet s.votes id).getD (false, [])
-  if info.1 then .ok { st := s, ret := "0", events := [] } else
-  match curPool s with
-  | none => .error .err
-  | some (_, pool) =>
-    match consAddrs s pool with
-    | none => .error .err
-    | some cons =>
-      if !cons.contains addr then .error .err else
-      let fresh := !info.2.contains addr
-      let voters := if fresh then info.2 ++ [addr] else info.2
-      let num := countIn cons info.2 + (if fresh then 1 else 0)
-      let s1 := if fresh then { s with votes := alPut s.votes id (false, voters) } else s
-      if vote_CheckVotes0 (num : Nat) (cons.length : Nat) then
-        .ok { st := { s1 with votes := alPut s1.votes id (true, voters) }, ret := "1", events := [] }
-      else .ok { st := s1, ret := "0", events := [] }
-
-def sigHas (l : List (Addr × Bytes)) (a : Addr) : Bool := l.any (fun p => p.1 == a)
-
-section
-variable (H : Bytes → Bytes)
-
-/-- `signature_manager.AddSignature` with `CheckSigns`. -/
-def addSignature (s : State) (signers : List Addr) (addr : Addr) (subject sig : Bytes) : M Out :=
-  if !witness signers addr then .error .err else
-  let id := H subject
-  let info := (alGet s.sigs id).getD (false, [])
-  match curPool s with
-  | none => .error .err
-  | some (_, pool) =>
-    match consAddrs s pool with
-    | none => .error .err
-    | some cons =>
-      if !cons.contains addr then .error .err else
-      let fresh := !sigHas info.2 addr
-      let entries := if fresh then info.2 ++ [(addr, sig)] else info.2
-      let num := countIn cons (info.2.map (·.1)) + (if fresh then 1 else 0)
-      let s1 := if fresh && sigmgr_CheckSigns0 (num : Nat) (cons.length : Nat) then { s with sigs := alPut s.sigs id (info.1, entries) } else s
-      if sigmgr_CheckSigns1 (num : Nat) (cons.length : Nat) then
-        .ok { st := { s1 with sigs := alPut s1.sigs id (true, entries) }, ret := "1", events := if info.1 then [] else ["AddSignatureQuorum"] }
-      else .ok { st := s1, ret := "1", events := [] }
-
-/-! ## Transactions -/
 
 inductive Op
   | key (pk : Bytes) (addr : Addr)
@@ -596,35 +376,239 @@ inductive Op
   | vote (id : Bytes) (addr : Addr)
   | sig (signers : List Addr) (addr : Addr) (subject sig : Bytes)
 
-/-- One transaction: the handler's verdict. -/
-def exec (s : State) : Op → M Out
-  | .key pk a => .ok { st := { s with keys := alPut s.keys pk a }, ret := "", events := [] }
-  | .height h => .ok { st := { s with height := h }, ret := "", events := [] }
+section
+variable (H : Bytes → Bytes)
+
+/-- What the transaction `op` is going to do in state `s` (all guards of the handlers up to the approval call). -/
+def plan (s : State) : Op → M Plan
+  | .key pk a => .ok (.done { st := { s with keys := alPut s.keys pk a }, ret := "", events := [] })
+  | .height h => .ok (.done { st := { s with height := h }, ret := "", events := [] })
   | .init mbcv peers => initConfig s mbcv peers
   | .reg sg pk a => registerCandidate s sg pk a
-  | .unreg sg pk a => unRegisterCandidate H s sg pk a
-  | .appr sg pk a => approveCandidate H s sg pk a
-  | .white sg pk a => whiteNode H s sg pk a
-  | .quit sg pk a => quitNode s sg pk a
-  | .black sg a pks => blackNode H s sg a pks
-  | .commit sg o => commitDpos s sg o
-  | .updcfg sg o c => updateConfig s sg o c
-  | .screg sg r => registerSideChain s sg r
-  | .scupd sg r => updateSideChain H s sg r
-  | .scappr sg id a => approveRegisterSideChain H s sg id a
-  | .scapprupd sg id a => approveUpdateSideChain H s sg id a
-  | .scquit sg id a => quitSideChain s sg id a
-  | .scapprquit sg id a => approveQuitSideChain H s sg id a
-  | .rlreg sg a l => registerRelayer s sg a l
-  | .rlrm sg a l => removeRelayer s sg a l
-  | .rlappr sg id a => approveRegisterRelayer H s sg id a
-  | .rlapprrm sg id a => approveRemoveRelayer H s sg id a
-  | .svreg sg a l => registerStateValidator s sg a l
-  | .svrm sg a l => removeStateValidator s sg a l
-  | .svappr sg id a => approveRegisterStateValidator H s sg id a
-  | .svapprrm sg id a => approveRemoveStateValidator H s sg id a
-  | .vote id a => checkVotes s id a
-  | .sig sg a subject sg' => addSignature H s sg a subject sg'
+  -- UnRegisterCandidate
+  | .unreg sg pk a =>
+    if !witness sg a then .error .err else
+    match decodePk pk with
+    | none => .error .err
+    | some kb =>
+      match alGet s.apply kb with
+      | none => .error .err
+      | some (apk, aaddr) =>
+        if aaddr ≠ a then .error .err else
+        .ok (.done { st := clearSigns H { s with apply := alErase s.apply kb } "approveCandidate" (strBytes apk),
+                     ret := "1", events := ["unRegisterCandidate"] })
+  -- ApproveCandidate
+  | .appr sg pk a =>
+    if !witness sg a then .error .err else
+    match decodePk pk with
+    | none => .error .err
+    | some kb =>
+      match alGet s.apply kb with
+      | none => .error .err
+      | some (apk, aaddr) =>
+        .ok (.approve { method := "approveCandidate", input := strBytes apk, addr := a, retNo := "1",
+                        onFire := candidateEffect pk apk aaddr })
+  -- WhiteNode
+  | .white sg pk a =>
+    if !witness sg a then .error .err else
+    match decodePk pk with
+    | none => .error .err
+    | some kb =>
+      if !alHas s.black kb then .error .err else
+      .ok (.approve { method := "whiteNode", input := strBytes pk, addr := a, retNo := "1",
+                      onFire := fun s1 => .ok ({ s1 with black := alErase s1.black kb }, "whiteNode") })
+  -- QuitNode
+  | .quit sg pk a =>
+    if !witness sg a then .error .err else
+    match curPool s with
+    | none => .error .err
+    | some (gv, pool) =>
+      match poolFind pool pk with
+      | none => .error .err
+      | some it =>
+        if !it.status.active then .error .err else
+        if a ≠ it.addr then .error .err else
+        if activeCount pool ≤ 4 then .error .err else
+        .ok (.done { st := { s with pools := alPut s.pools gv.view (poolSetStatus pool pk .quit) }, ret := "1", events := ["quitNode"] })
+  -- BlackNode
+  | .black sg a pks =>
+    if !witness sg a then .error .err else
+    match curPool s with
+    | none => .error .err
+    | some (gv, pool) =>
+      if activeCount pool + 1 ≤ 4 + pks.length then .error .err else
+      if pks.any (fun pk => match poolFind pool pk with
+          | none => true
+          | some it => decide (it.status = .black)) then .error .err else
+      .ok (.approve { method := "blackNode", input := pks.flatMap strBytes, addr := a, retNo := "1",
+                      onFire := blackEffect gv pool pks })
+  -- CommitDpos
+  | .commit sg operator =>
+    match s.cfg, s.gv with
+    | some cfg, some gv =>
+      if !operatorOk s then .error .err else
+      if !witness sg operator && !(decide (wrapSub32 s.height gv.height ≥ cfg.maxBlockChangeView)) then .error .err else
+      match executeCommitDpos s with
+      | .error e => .error e
+      | .ok s1 => .ok (.done { st := s1, ret := "1", events := ["commitDpos"] })
+    | _, _ => .error .err
+  -- UpdateConfig
+  | .updcfg sg operator c =>
+    if !operatorOk s then .error .err else
+    if !witness sg operator then .error .err else
+    if c.blockMsgDelay < 5000 || c.hashMsgDelay < 5000 || c.peerHandshakeTimeout < 10 || c.maxBlockChangeView < 10000 then .error .err else
+    .ok (.done { st := { s with cfg := some c }, ret := "1", events := ["updateConfig"] })
+  -- RegisterSideChain
+  | .screg sg r =>
+    if r.btw = 0 then .error .err else
+    if !witness sg r.addr then .error .err else
+    if alHas s.scApply r.chainId then .error .err else
+    if alHas s.sc r.chainId then .error .err else
+    .ok (.done { st := { s with scApply := alPut s.scApply r.chainId r }, ret := "1", events := ["RegisterSideChain"] })
+  -- ApproveRegisterSideChain
+  | .scappr sg id a =>
+    if !witness sg a then .error .err else
+    match alGet s.scApply id with
+    | none => .error .err
+    | some req =>
+      .ok (.approve { method := "approveRegisterSideChain", input := u64le id, addr := a, retNo := "1",
+                      onFire := fun s1 => .ok ({ s1 with sc := alPut s1.sc req.chainId req, scApply := alErase s1.scApply id },
+                                                "ApproveRegisterSideChain") })
+  -- UpdateSideChain
+  | .scupd sg r =>
+    if r.btw = 0 then .error .err else
+    if !witness sg r.addr then .error .err else
+    match alGet s.sc r.chainId with
+    | none => .error .err
+    | some cur =>
+      if cur.addr ≠ r.addr then .error .err else
+      .ok (.done { st := clearSigns H { s with scUpd := alPut s.scUpd r.chainId r } "approveUpdateSideChain" (u64le r.chainId),
+                   ret := "1", events := ["UpdateSideChain"] })
+  -- ApproveUpdateSideChain
+  | .scapprupd sg id a =>
+    if !witness sg a then .error .err else
+    match alGet s.scUpd id with
+    | none => .error .err
+    | some req =>
+      .ok (.approve { method := "approveUpdateSideChain", input := u64le id, addr := a, retNo := "1",
+                      onFire := fun s1 => .ok ({ s1 with sc := alPut s1.sc req.chainId req, scUpd := alErase s1.scUpd id },
+                                                "ApproveUpdateSideChain") })
+  -- QuitSideChain
+  | .scquit sg id a =>
+    if !witness sg a then .error .err else
+    match alGet s.sc id with
+    | none => .error .err
+    | some cur =>
+      if cur.addr ≠ a then .error .err else
+      .ok (.done { st := { s with scQuit := if s.scQuit.contains id then s.scQuit else s.scQuit ++ [id] }, ret := "1", events := ["QuitSideChain"] })
+  -- ApproveQuitSideChain
+  | .scapprquit sg id a =>
+    if !witness sg a then .error .err else
+    if !s.scQuit.contains id then .error .err else
+    .ok (.approve { method := "quitSideChain", input := u64le id, addr := a, retNo := "1",
+                    onFire := fun s1 => .ok ({ s1 with scQuit := s1.scQuit.filter (fun x => decide (x ≠ id)),
+                                                       scUpd := alErase s1.scUpd id, sc := alErase s1.sc id },
+                                              "ApproveQuitSideChain") })
+  -- RegisterRelayer
+  | .rlreg sg a l =>
+    if !witness sg a then .error .err else
+    .ok (.done { st := { s with rlApplyId := some (s.rlApplyId.getD 0 + 1), rlApply := alPut s.rlApply (s.rlApplyId.getD 0) (l, a) },
+                 ret := "1", events := ["putRelayerApply"] })
+  -- ApproveRegisterRelayer
+  | .rlappr sg id a =>
+    if !witness sg a then .error .err else
+    match alGet s.rlApply id with
+    | none => .error .err
+    | some (l, _) =>
+      .ok (.approve { method := "approveRegisterRelayer", input := u64le id, addr := a, retNo := "1",
+                      onFire := fun s1 => .ok ({ s1 with relayers := l.foldl addOnce s1.relayers, rlApply := alErase s1.rlApply id },
+                                                "ApproveRegisterRelayer") })
+  -- RemoveRelayer
+  | .rlrm sg a l =>
+    if !witness sg a then .error .err else
+    .ok (.done { st := { s with rlRemoveId := some (s.rlRemoveId.getD 0 + 1), rlRemove := alPut s.rlRemove (s.rlRemoveId.getD 0) (l, a) },
+                 ret := "1", events := ["putRelayerRemove"] })
+  -- ApproveRemoveRelayer
+  | .rlapprrm sg id a =>
+    if !witness sg a then .error .err else
+    match alGet s.rlRemove id with
+    | none => .error .err
+    | some (l, _) =>
+      .ok (.approve { method := "approveRemoveRelayer", input := u64le id, addr := a, retNo := "1",
+                      onFire := fun s1 => .ok ({ s1 with relayers := s1.relayers.filter (fun x => !l.contains x), rlRemove := alErase s1.rlRemove id },
+                                                "ApproveRemoveRelayer") })
+  -- RegisterStateValidator
+  | .svreg sg a l =>
+    if !witness sg a then .error .err else
+    .ok (.done { st := { s with svApplyId := some (s.svApplyId.getD 0 + 1), svApply := alPut s.svApply (s.svApplyId.getD 0) (l, a) },
+                 ret := "1", events := ["putStateValidatorApply"] })
+  -- ApproveRegisterStateValidator (a missing request record is dereferenced only once the quorum is reached)
+  | .svappr sg id a =>
+    if !witness sg a then .error .err else
+    .ok (.approve { method := "approveRegisterStateValidator", input := u64le id, addr := a, retNo := "0",
+                    onFire := fun s1 => match alGet s1.svApply id with
+                      | none => .error .panic
+                      | some (l, _) =>
+                        .ok ({ s1 with svs := some (s1.svs.getD [] ++ l.filter (fun x => !(s1.svs.getD []).contains x)),
+                                       svApply := alErase s1.svApply id }, "ApproveRegisterStateValidator") })
+  -- RemoveStateValidator
+  | .svrm sg a l =>
+    if !witness sg a then .error .err else
+    .ok (.done { st := { s with svRemoveId := some (s.svRemoveId.getD 0 + 1), svRemove := alPut s.svRemove (s.svRemoveId.getD 0) (l, a) },
+                 ret := "1", events := ["putStateValidatorRemove"] })
+  -- ApproveRemoveStateValidator
+  | .svapprrm sg id a =>
+    if !witness sg a then .error .err else
+    .ok (.approve { method := "approveRemoveStateValidator", input := u64le id, addr := a, retNo := "0",
+                    onFire := fun s1 => match alGet s1.svRemove id with
+                      | none => .error .panic
+                      | some (l, _) =>
+                        .ok ({ s1 with svs := if (l.foldl (fun acc x => acc.erase x) (s1.svs.getD [])).isEmpty then none
+                                              else some (l.foldl (fun acc x => acc.erase x) (s1.svs.getD [])),
+                                       svRemove := alErase s1.svRemove id }, "ApproveRemoveStateValidator") })
+  -- consensus_vote.CheckVotes
+  | .vote id a =>
+    if ((alGet s.votes id).getD (false, [])).1 then .ok (.done { st := s, ret := "0", events := [] }) else
+    match curPool s with
+    | none => .error .err
+    | some (_, pool) =>
+      match consAddrs s pool with
+      | none => .error .err
+      | some cons =>
+        if !cons.contains a then .error .err else
+        let r := voteCore ((alGet s.votes id).getD (false, [])).2 cons a
+        .ok (.done { st := { s with votes := alPut s.votes id (r.2, r.1) }, ret := if r.2 then "1" else "0", events := [] })
+  -- signature_manager.AddSignature / CheckSigns
+  | .sig sg a subject sig =>
+    if !witness sg a then .error .err else
+    match curPool s with
+    | none => .error .err
+    | some (_, pool) =>
+      match consAddrs s pool with
+      | none => .error .err
+      | some cons =>
+        if !cons.contains a then .error .err else
+        let r := sigCore ((alGet s.sigs (H subject)).getD (false, [])) cons a sig
+        .ok (.done { st := { s with sigs := alPut s.sigs (H subject) r.1 }, ret := "1",
+                     events := if r.2 then ["AddSignatureQuorum"] else [] })
+
+/-- Carrying out a plan: an approval goes through `CheckConsensusSigns`; the action is applied iff the quorum is reached. -/
+def runPlan (s : State) : Plan → M Out
+  | .done o => .ok o
+  | .approve ap =>
+    match checkConsensusSigns H s ap.method ap.input ap.addr with
+    | .error e => .error e
+    | .ok (s1, false, ev) => .ok { st := s1, ret := ap.retNo, events := [ev] }
+    | .ok (s1, true, ev) =>
+      match ap.onFire s1 with
+      | .error e => .error e
+      | .ok (s2, name) => .ok { st := s2, ret := "1", events := [ev, name] }
+
+/-- One transaction: the handler's verdict. -/
+def exec (s : State) (op : Op) : M Out :=
+  match plan H s op with
+  | .error e => .error e
+  | .ok p => runPlan H s p
 
 /-- State after the transaction: unchanged when the handler fails (nothing is committed). -/
 def step (s : State) (op : Op) : State :=
